@@ -14,12 +14,17 @@ by the same flag constant on both sides; (b) decoder panic surface: every panic-
 ProtoHdr::decrypt_and_decode / decrypt_in_place, StatusReport::read, ReadBuf (ParseBuf), base38::decode*, the QR / manual pairing
 code parsers, CheckIn::parse, the BDX message parsers and the BTP header / handshake parsers is discharged (scheme of C16);
 (c) refusals are real: the manual-code parser's Ok is cut by the Verhoeff check-digit validation; the QR parser's Ok by the prefix
-test and the minimum-length test.
-Not covered (audit volume): the mDNS answer parser, the Matter<->X.509 certificate conversion and the BLE advertisement parser.
+test and the minimum-length test. The panic surface of (b) also covers the BLE advertisement parsers (AdStructures, AdvData /
+RecoveryAdvData::parse*), the mDNS TXT / address iterators, CommissionableFilter::matches_txt and the responder's receive slice,
+the Matter-TLV -> X.509 conversion (CertRef::encode, DN, Extension, ASN1Writer - it runs on peer certificates before their
+signature is checked), the X.509 / CSR / DER-signature decoders and the Certification Declaration parser; parsing done inside the
+`der` and `domain` crates is outside the analysed crate. (d) every CertConsumer::utctime call site passes a 32-bit certificate
+field or a constant (the date conversion it unwraps is total on that range).
 """
-CLAUSES = ['a: encoder/decoder field tables agree (PlainHdr, ProtoHdr, StatusReport)', 'b: decoder panic surface discharged (listed decoders)', 'c: check digit / prefix / length refusals guard acceptance']
-NOT_DECIDED = ['equality of decoded and encoded field values', 'base-38 and bit-packing arithmetic', 'mDNS answer parser, certificate conversion, BLE advertisement parser (not analysed)']
-MIN_OBLIGATIONS = {'q': 25, 'd': 25, 'r': 25}
+CLAUSES = ['a: encoder/decoder field tables agree (PlainHdr, ProtoHdr, StatusReport)', 'b: decoder panic surface discharged (headers, pairing codes, BDX, check-in, BTP, BLE advertisements, mDNS TXT, certificate conversion, X.509/CSR/CD decoders)',
+           'c: check digit / prefix / length refusals guard acceptance', 'd: utctime argument bounded at every call site']
+NOT_DECIDED = ['equality of decoded and encoded field values', 'base-38 and bit-packing arithmetic', 'parsing inside the external `der` and `domain` crates', 'equality of the X.509 form with the TLV form of a certificate']
+MIN_OBLIGATIONS = {'q': 70, 'd': 70, 'r': 70}
 
 WB = 'utils::storage::writebuf::WriteBuf::'
 RB = 'utils::storage::parsebuf::ReadBuf::'
@@ -129,6 +134,22 @@ def check(R):
         total, nb, used = p7.analyse(R, 'P7', bodies, p7.load_audited(), 'C17')
         R.floor('panic-capable sites examined', total, 50)
         R.note(f'{total} panic-capable sites in {nb} of {len(bodies)} decoder bodies; {len(used)} discharged by audited invariants')
+
+    # ---- d --------------------------------------------------------------------
+    with R.clause('d'):
+        # ASN1Writer::utctime adds MATTER_EPOCH_SECS to its argument and unwraps the date conversion: sound only while every caller
+        # passes a 32-bit certificate field (widened) or a named constant
+        UT = 'cert::CertConsumer::utctime'
+        sites = [(b, t) for b in F.bodies.values() if b.focus and '::tests::' not in b.fn for t in b.calls(UT)]
+        R.floor('CertConsumer::utctime call sites', len(sites), 3)
+        for n, (b, t) in enumerate(sorted(sites, key=lambda x: (x[0].fn, x[1].line))):
+            a = t.d['a'][2]
+            bits = p7.max_bits(b, a)
+            const = 'k' in a and a['k'].get('v') is not None
+            R.expect('P6', b.fn, f'utctime() call #{n + 1} is given a value of at most 32 bits or a compile-time constant', const or (bits is not None and bits <= 32),
+                     f'constant {a["k"].get("p", a["k"].get("v"))}' if const else f'{bits}-bit value ({p7.expr_key(b, a)})',
+                     f'argument {p7.expr_key(b, a)} is not bounded to 32 bits: MATTER_EPOCH_SECS + epoch / from_unix_timestamp().unwrap() can panic on a peer certificate',
+                     b.where(t.bb))
 
     # ---- c --------------------------------------------------------------------
     with R.clause('c'):
